@@ -8,6 +8,7 @@ From Coq Require Import List NArith ZArith Bool Lia Arith.
 From GmsmVerif Require Import Lib.Outcome EC.ECAffine EC.SM2Curve SM3.SM3Spec
      SM2.SM2Bytes SM2.SM2BytesProofs SM2.SM2Spec SM2.DER SM2.SM2Model SM2.SM2SignProofs SM2.SM2Group
      SM2.SM2EncProofs SM2.SM2Asn1Proofs.
+From GmsmVerif Require Import SM2.SM2ParamsTie Gen.SM2Params Gen.SM2SigParams.
 Import ListNotations.
 Open Scope Z_scope.
 
@@ -158,6 +159,15 @@ Proof.
   exists M'. split; [reflexivity|]. apply (decrypt_spec_C2_collision d x y C3 C2 C2' M M' H E). congruence.
 Qed.
 Print Assumptions C02_altered_C2_rejected_or_collision.
+
+(* ---- tie to the source: curve constants, 40 nonce bytes, mode values, minimal ciphertext length ---------- *)
+Theorem C02_source_constants_tied :
+  (gen_P = sm2_p /\ gen_N = sm2_n /\ gen_A = sm2_a /\ gen_B = sm2_b /\ gen_Gx = sm2_Gx /\ gen_Gy = sm2_Gy /\
+   gen_BitSize / gen_rand_div + gen_rand_extra = 40) /\
+  (gen_default_uid = default_uid /\ gen_uid_limit = 8192 /\ gen_C1C3C2 = 0 /\ gen_C1C2C3 = 1 /\
+   gen_decrypt_min = Z.of_nat (1 + 64 + 32 + 1)).
+Proof. exact (conj curve_params_tied sig_params_tied). Qed.
+Print Assumptions C02_source_constants_tied.
 
 (* ---- non-vacuity: concrete instances, evaluated (key d = 1, nonce k = 2, three-byte plaintext) ------- *)
 Example C02_kdf_example :
